@@ -331,7 +331,9 @@ def vc_inv_div_structure(H):
                     ctx.notes.append('expected-raise'); raise raised
                 return r
             ok = raised is None and isinstance(r, tuple) and r[0] == 'LambdifyInput'
-            ctx.oblige('returns a LambdifyInput', bool(ok))
+            if not ok:
+                raise OutOfSubset('codegen_div: the result is not a LambdifyInput (contract does not apply)')
+            ctx.oblige('returns a LambdifyInput', True)
             if ok:
                 kw = r[1]
                 ctx.oblige('args bind x then y to their values', kw.get('args') == {'x': 'XVALS', 'y': 'YVALS'})
